@@ -3,6 +3,7 @@ sequence-counter effects per return path.  Shared by C01, C04, C05, C06."""
 from ..bits import bits, be_byte_ok, WIDTH
 from ..mirjson import callee_of
 from ..prov import get_an, pp, strip_generics, contains, walk, bytes_of, fold_bin
+from ..prov import strip_sites as strip_sites_
 from .common import (bodies_calling, adt_field_stores, adt_field_mut_borrows, aggregates_of, ret_classes,
                      is_ok_agg, is_err_agg, hpke_variant, enumerate_paths, switch_on, switch_edge,
                      uses_of_local_blocks, addr_fields, load_path_fields, where, closure_ret, site_reaches)
@@ -442,6 +443,13 @@ def _check_counter_writer(rep, facts, a, fn, l, writer, base_idx, seq_idx, same_
     slices = [e for e in wpath if e[0] == 'slice']
     pos_ok = False
     found = pp(('addr', ('local', l), wpath, True))
+    if len(slices) == 2 and slices[0][2] is None and slices[1][1] is None and slices[0][1] is not None and slices[1][2] is not None:
+        # buf[a..][..n] is buf[a..a + n]; with a = len - n that is buf[len - n..]
+        a_, n_ = slices[0][1], slices[1][2]
+        if a_[0] == 'bin' and a_[1] == 'Sub' and strip_sites_(a_[3]) == strip_sites_(n_) and a_[2][0] == 'len':
+            lb_, lf_ = addr_fields(a_[2][1])
+            if (lb_ == ('param', base_idx) or lb_ == ('local', l)) and same_ty:
+                slices = [('slice', a_, None)]
     if len(slices) == 1 and slices[0][2] is None:
         lo = slices[0][1]
         if lo[0] == 'bin' and lo[1] == 'Sub':
